@@ -506,6 +506,18 @@ func (k msgServer) UpdateConsumer(goCtx context.Context, msg *types.MsgUpdateCon
 		if k.IsConsumerPrelaunched(ctx, consumerId) {
 			chainId = msg.NewChainId
 			k.SetConsumerChainId(ctx, consumerId, chainId)
+
+			// the initial height of the stored initialization parameters has to match the revision of the new chain id;
+			// if new initialization parameters are provided in this message, those are validated when they are set below
+			if msg.InitializationParameters == nil {
+				storedInitializationParameters, err := k.Keeper.GetConsumerInitializationParameters(ctx, consumerId)
+				if err == nil {
+					if err := types.ValidateInitialHeight(storedInitializationParameters.InitialHeight, chainId); err != nil {
+						return &resp, errorsmod.Wrapf(types.ErrInvalidMsgUpdateConsumer,
+							"new chain id does not match the stored initial height: %s", err.Error())
+					}
+				}
+			}
 		} else {
 			// the chain id cannot be updated if the chain is NOT in a prelaunched (i.e., registered or initialized) phase
 			return &resp, errorsmod.Wrapf(types.ErrInvalidPhase, "cannot update chain id of a non-prelaunched chain: %s", k.GetConsumerPhase(ctx, consumerId))
